@@ -670,7 +670,8 @@ def _render(pat, is_re):
     out = []
     for tok in pat:
         if tok["t"] == "c":
-            out.append(re.escape(tok["c"]) if is_re else tok["c"])
+            # a literal character; as a wildcard pattern, characters that are special to it are written as a class
+            out.append(re.escape(tok["c"]) if is_re else ("[" + tok["c"] + "]" if tok["c"] in "*?[" else tok["c"]))
         elif tok["t"] == "1":
             out.append("." if is_re else "?")
         elif tok["t"] == "D":
@@ -1095,9 +1096,10 @@ def mutate_text(fmt, text, kind, idx):
         for i, t in enumerate(toks[:-3]):
             if t == "(" and toks[i + 1].lower() == "instance":
                 pos_ids.append(i + 2 if toks[i + 2] != "(" else i + 4)      # plain identifier or (rename id "name")
-        if len(pos_ids) < 2 or idx >= len(pos_ids):
+        pairs = [(a, b) for a in range(len(pos_ids)) for b in range(len(pos_ids)) if a != b]     # every ordered pair
+        if idx >= len(pairs):
             return None, n
-        toks[pos_ids[idx]] = toks[pos_ids[(idx + 1) % len(pos_ids)]]
+        toks[pos_ids[pairs[idx][0]]] = toks[pos_ids[pairs[idx][1]]]
     elif kind == "dangle":
         refs = [i + 1 for i, t in enumerate(toks[:-1]) if t.lower() in _REFKW[fmt] and toks[i + 1] not in ("(", ")")]
         if not refs:
